@@ -2252,6 +2252,56 @@ def iter_adaptors(E, frame, b, t, sts, c, quiet):
     return out
 
 
+@raw_model(['map'], rdid='core::array::')
+def array_map(E, frame, b, t, sts, c, quiet):
+    """<[T; N]>::map(f): the closure is applied to every element, in order, exactly once each; return paths of
+    the closure are kept apart (up to 24 combinations), the result has the shape of the argument"""
+    out = []
+    dty = E.dest_ty(frame, t)
+    cls = E.closure_bodies_in(frame, t)
+    for st in sts:
+        args = E.arg_vals(st, frame, t)
+        arr = st.resolve(E.expand(args[0]))
+        items = None
+        if arr != BOT and arr[0] == 'S' and arr[3] is not None:
+            items = list(arr[3])
+        elif arr != BOT and arr[0] == 'A':
+            items = list(arr[1])
+        done_states = None
+        if cls and items is not None and len(items) <= 40:
+            ci, body = cls[0]
+            cur = [(st, ())]
+            for it in items:
+                nxt = []
+                for s_c, done in cur:
+                    for s_f, r_f in E.run_closure_once(frame, b, t, s_c, ci, body, quiet, [it]):
+                        if r_f != BOT:
+                            nxt.append((s_f, done + (E.deep_resolve(s_f, r_f) if r_f[0] in ('I', 'F', 'E', 'A') else r_f,)))
+                cur = nxt
+                if len(cur) > 24:
+                    cur = None
+                    break
+            done_states = cur
+        if done_states is None:
+            s2 = st
+            for ci, body in cls:
+                s2, _ = E.run_closure_any(frame, b, t, s2, ci, body, quiet)
+            E.write_dest(s2, frame, t, ('T', dty, E.site(frame, b, 'am')))
+            out.append(s2)
+            continue
+        for s_c, done in done_states:
+            if arr[0] == 'S':
+                el = BOT
+                for x in done:
+                    el = join(el, x)
+                res = ('S', arr[1], el if el != BOT else ('T', None, None), tuple(done))
+            else:
+                res = ('A', tuple(done))
+            E.write_dest(s_c, frame, t, res)
+            out.append(s_c)
+    return out
+
+
 @raw_model(['all', 'any', 'position', 'find', 'for_each', 'count', 'sum', 'fold', 'max', 'min', 'last', 'nth', 'find_map',
             'max_by', 'min_by', 'max_by_key', 'min_by_key', 'rposition', 'product', 'try_for_each', 'try_fold', 'reduce'],
            trait='std::iter::Iterator')
